@@ -4,6 +4,7 @@ from props.c16 import hx
 
 class C18(Prop):
     id = "C18"
+    thorough_rounds = 2   # thorough tier: this many independently seeded rounds of the random generators (duplicates dropped)
     modules = ["H3.Props.C18"]
     engines = ["dgram"]
     design_ref = "DESIGN.md section 7, C18"
